@@ -95,10 +95,17 @@ def one_case(args):
                             events.append((cid, 'r', 0))
                         return 'n'
                     if kind == 'barrier':
-                        def body():
+                        # two DIFFERENT functions under one explicit name (also the falsy names 0 and ''): they
+                        # must exclude each other exactly like holders of Lock(cache, name)
+                        def body_even():
                             events.append((cid, 'a', 1))
                             critical()
-                        diskcache.barrier(cache, diskcache.Lock, name='L')(body)()
+
+                        def body_odd():
+                            events.append((cid, 'a', 1))
+                            critical()
+                        bname = ['L', 0, ''][seed % 3]
+                        diskcache.barrier(cache, diskcache.Lock, name=bname)(body_odd if cid % 2 else body_even)()
                         events.append((cid, 'r', 1))
                         return 'n'
                     lk.acquire()
